@@ -1,3 +1,4 @@
 import PsModel.Util.Sexp
 import PsModel.Util.Hex
+import PsModel.Props.C02
 import PsModel.Props.C19
